@@ -481,6 +481,13 @@ theorem runCmds_append (free : String → Option V) (r : Regs V) (a b : List (Cm
       | ok v =>
         simp only [ih]
         cases (runCmds free r rest).fin <;> simp
+    | useArr es =>
+      simp only [List.cons_append, runCmds]
+      cases he : es.mapM (eval ⟨free, r⟩) with
+      | error err => simp
+      | ok vs =>
+        simp only [ih]
+        cases (runCmds free r rest).fin <;> simp
 
 /-- the register after an error-free run holds, for every subsystem, its most recent outcome (or
 what it held before, when the subsystem was not measured) -/
@@ -515,6 +522,15 @@ theorem runCmds_fin (free : String → Option V) (r r' : Regs V) (cs : List (Cmd
         rw [ih _ h]
         simp only [lastOutcome]
         cases lastOutcome m rest <;> rfl
+    | useArr es =>
+      simp only [runCmds] at h
+      cases he : es.mapM (eval ⟨free, r⟩) with
+      | error err => simp [he] at h
+      | ok vs =>
+        simp only [he] at h
+        rw [ih _ h]
+        simp only [lastOutcome]
+        cases lastOutcome m rest <;> rfl
 
 theorem runSegs_started (free : String → Option V) (e : Eng V) (he : e.started = true)
     (segs : List (Regs V × List (Cmd V))) :
@@ -535,6 +551,109 @@ theorem runSegs_fresh (free : String → Option V) (own : Regs V) (cmds : List (
   cases hf : (runCmds free own cmds).fin with
   | error err => simp [hf]
   | ok r => simp [hf, runSegs_started free ⟨true, r⟩ rfl]
+
+/-! ### recursive decomposition commutes with substitution -/
+
+theorem holeLookup_map {α β : Type} (f : α → β) (xs : List α) (i : Nat) (n : String) :
+    holeLookupFrom i (xs.map f) n = (holeLookupFrom i xs n).map f := by
+  induction xs generalizing i with
+  | nil => rfl
+  | cons a l ih =>
+    simp only [List.map_cons, holeLookupFrom]
+    split
+    · rfl
+    · exact ih (i + 1)
+
+/-- substituting into an instantiated template expression = instantiating with the substituted
+parameters, when the substitution leaves the template's own atoms alone -/
+theorem subst_inst (σ : Subst) (ps : List Expr) (t : Expr) (hm : measAtoms t = [])
+    (hf : ∀ n ∈ freeAtoms t, σ.free n = none) :
+    subst σ (subst (holeSubst ps) t) = subst (holeSubst (ps.map (subst σ))) t := by
+  induction t with
+  | num q => rfl
+  | free n =>
+    simp only [subst, holeSubst, holeLookup_map]
+    cases hl : holeLookupFrom 0 ps n with
+    | some e' => simp
+    | none => simp [subst, hf n (by simp [freeAtoms])]
+  | meas m => simp [measAtoms] at hm
+  | add a b iha ihb | mul a b iha ihb | pow a b iha ihb | fn2 f a b iha ihb =>
+    simp only [measAtoms, List.append_eq_nil_iff] at hm
+    simp only [freeAtoms, List.mem_append] at hf
+    simp [subst, iha hm.1 (fun n h => hf n (.inl h)), ihb hm.2 (fun n h => hf n (.inr h))]
+  | neg a iha | fn1 f a iha =>
+    simp only [measAtoms] at hm
+    simp only [freeAtoms] at hf
+    simp [subst, iha hm hf]
+
+/-- the substitution does not touch what the templates of the table are made of -/
+def TblOK (tbl : List (String × List TCmd)) (σ : Subst) : Prop :=
+  ∀ p ∈ tbl, ∀ c ∈ p.2, ∀ e ∈ c.pars, measAtoms e = [] ∧ ∀ n ∈ freeAtoms e, σ.free n = none
+
+theorem tblOK_of (tbl : List (String × List TCmd)) (σ : Subst) (hc : closedTable tbl = true)
+    (ha : ∀ n ∈ tableAtoms tbl, σ.free n = none) : TblOK tbl σ := by
+  intro p hp c hcm e he
+  refine ⟨?_, fun n hn => ha n ?_⟩
+  · simp only [closedTable, List.all_eq_true] at hc
+    simpa using hc p hp c hcm e he
+  · simp only [tableAtoms, List.mem_flatMap]
+    exact ⟨p, hp, c, hcm, e, he, hn⟩
+
+theorem lookupT_mem (tbl : List (String × List TCmd)) (cls : String) (t : List TCmd)
+    (h : lookupT tbl cls = some t) : ∃ p ∈ tbl, p.2 = t := by
+  unfold lookupT at h
+  cases hf : tbl.find? (·.1 == cls) with
+  | none => simp [hf] at h
+  | some p =>
+    simp [hf] at h
+    exact ⟨p, List.mem_of_find?_eq_some hf, h⟩
+
+theorem stepCmd_subst (tbl : List (String × List TCmd)) (σ : Subst) (h : TblOK tbl σ) (c : PCmd) :
+    stepCmd tbl (c.subst σ) = (stepCmd tbl c).map (·.map (PCmd.subst σ)) := by
+  unfold stepCmd
+  simp only [PCmd.subst]
+  cases hl : lookupT tbl c.cls with
+  | none => rfl
+  | some t =>
+    obtain ⟨p, hp, rfl⟩ := lookupT_mem tbl c.cls t hl
+    simp only [Option.map_some, Option.some.injEq]
+    unfold decomposeWith orient
+    have key : (p.2.map (TCmd.inst (holeSubst (c.pars.map (subst σ))))) =
+        (p.2.map (TCmd.inst (holeSubst c.pars))).map (fun x => { x with pars := x.pars.map (subst σ) }) := by
+      rw [List.map_map]
+      apply List.map_congr_left
+      intro tc htc
+      simp only [TCmd.inst, Function.comp, List.map_map]
+      congr 1
+      apply List.map_congr_left
+      intro e he
+      exact (subst_inst σ c.pars e (h p hp tc htc e he).1 (h p hp tc htc e he).2).symm
+    rw [key]
+    cases c.dagger <;> simp [placeCmd, List.map_reverse, Function.comp_def, PCmd.subst]
+
+theorem expand_subst (tbl : List (String × List TCmd)) (dec : String → Bool) (σ : Subst) (h : TblOK tbl σ)
+    (fuel : Nat) (cs : List PCmd) :
+    expand tbl dec fuel (cs.map (PCmd.subst σ)) = (expand tbl dec fuel cs).map (PCmd.subst σ) := by
+  induction fuel generalizing cs with
+  | zero => rfl
+  | succ k ih =>
+    simp only [expand, List.flatMap_map, List.map_flatMap]
+    congr 1
+    funext c
+    have hcls : (c.subst σ).cls = c.cls := rfl
+    rw [hcls]
+    cases dec c.cls with
+    | false => simp
+    | true =>
+      simp only [if_true]
+      rw [stepCmd_subst tbl σ h c]
+      cases stepCmd tbl c with
+      | none => simp
+      | some l => simp [ih l]
+
+theorem pcmd_sem_subst (env ρ : Env V) (σ : Subst) (hp : Pulls env ρ σ) (c : PCmd) :
+    (c.subst σ).sem env = c.sem ρ := by
+  simp [PCmd.sem, PCmd.subst, mapM_eval_subst env ρ σ hp]
 
 /-! ### calls -/
 
